@@ -85,9 +85,12 @@ def argmaxFirst : List Nat → Option Nat
 
 /-- `Len._simplify_down`; `cls` ∈ {"Index", "IO", "Concat", other}; `lp` = frame._is_length_preserving,
     `childlp` = frame.frame._is_length_preserving (for Index frames), `deps` = npartitions of the dependencies -/
-def lenRule (cls : String) (lp childlp : Bool) (deps : List Nat) (concatAxis0 : Bool) (ndim ncols : Nat) : LenAction :=
-  if cls = "Index" ∧ childlp then .childOfIndex
-  else if lp ∧ cls ≠ "Index" then (match argmaxFirst deps with
+def lenRule (cls : String) (lp childlp : Bool) (deps : List Nat) (concatAxis0 : Bool) (ndim ncols : Nat)
+    (sel childsel : Bool := false) : LenAction :=
+  -- `sel` / `childsel`: the frame (the frame below an Index) is a PartitionsFiltered node that computes a SELECTION of
+  -- its partitions — it has another length than its input, whatever `_is_length_preserving` says (D108)
+  if cls = "Index" ∧ childlp ∧ ¬ childsel then .childOfIndex
+  else if lp ∧ cls ≠ "Index" ∧ ¬ sel then (match argmaxFirst deps with
     | some i => .dep i
     | Option.none => .valueError)
   else if cls = "IO" then .keep
@@ -104,9 +107,10 @@ def rLenAction : LenAction → String
   | .none => "none"
   | .valueError => "ERR ValueError"
 
-/-- `Size._simplify_down`: `len(columns) * Len(frame)` for frames with more than one column, else `Len(frame)` -/
+/-- `Size._simplify_down`: `len(columns) * Len(frame)` for frames whose number of columns is not 1 (also 0, D75),
+    else `Len(frame)` -/
 def sizeRule (isFrame : Bool) (ncols : Nat) : Nat × Unit :=
-  (if isFrame && decide (ncols > 1) then ncols else 1, ())
+  (if isFrame && decide (ncols ≠ 1) then ncols else 1, ())
 
 /-- `Lengths._simplify_down`: through Elemwise to the first dependency with the most partitions -/
 def lengthsRule (isElemwise : Bool) (deps : List Nat) : Option Nat :=
